@@ -1,5 +1,5 @@
 //@unit sm2_math
-//@serves C03 C04 C05 C06 C09 C10 C11 C13 C14 C15 C16 C17 C19
+//@serves C03 C04 C05 C06 C09 C10 C11 C13 C14 C15 C16 C17 C19 C20
 //@assume SM2 parameters p, n, b, G in the spec are a transcription of GB/T 32918.5 (compared with the code constants by ground lemmas in the units that use them)
 //@assume p and n are prime; the curve points form an abelian group under g_add (axioms ax_*)
 //@section spec
